@@ -128,7 +128,7 @@ PROPS["C16"] = {
 PROPS["C05"] = {
     "level": "fault_enumeration",
     "exhaustive": True,
-    "cells": 579,
+    "cells": 675,
     "rule": ("the complete matrix {server certificate: trusted+matching, trusted+wrong host, untrusted CA, expired, valid for only 200 s more (must be accepted), valid only in 200 s (must be refused)} x {client --insecure on/off} x {client certificate: none, server's CA, foreign CA, impostor CA (same subject name as the server's CA, other key - the case in which a stock TLS client does send the certificate)} x "
              "{requireClientCert on/off} x carrier {TLS socket, HTTPS websocket, StartTLS over socket / websocket / UDP(KCP) / DNS} (576 cells) plus {equal, different, absent} UDP secrets is "
              "enumerated by run index; per run the upstream is named by host name or IP literal (with a certificate naming exactly that), an unreachable decoy upstream naming another host may be listed first (none / tcp+tls / wss / tcp), and delivery segmentation is sampled; non-trivial = the "
@@ -139,8 +139,8 @@ PROPS["C05"] = {
                    "(no requirement or client certificate of the server's CA); UDP admits iff secrets equal. On reject no target may accept a connection or receive a byte; on admit a 64-byte exchange must complete."),
     "level_note": "PKI generated deterministically at worker start for the simulated epoch 2000-01-01; 'expired' is produced by the simulated clock. The documented stdio+tls exception is not part of the matrix.",
     "tiers": {
-        "quick": {"runs": 579 * 6, "chunk": 193, "shrink_s": 30},
-        "thorough": {"runs": 579 * 200, "chunk": 579, "shrink_s": 90},
+        "quick": {"runs": 675 * 6, "chunk": 225, "shrink_s": 30},
+        "thorough": {"runs": 675 * 200, "chunk": 675, "shrink_s": 90},
     },
 }
 
